@@ -88,6 +88,8 @@ fn cancel_step(target: u64) -> bool {
 #[kani::unwind(8)]
 #[kani::stub(tokio::sync::Notify::notify_waiters, stub_notify_waiters)]
 #[kani::stub(std::collections::VecDeque::remove, crate::verif_common::vecdeque_remove_stub)]
+#[kani::stub(std::collections::VecDeque::swap_remove_back, crate::verif_common::vecdeque_swap_remove_back_stub)]
+#[kani::stub(std::collections::VecDeque::swap_remove_front, crate::verif_common::vecdeque_swap_remove_front_stub)]
 fn c18_cancel_in_flight_operation() {
     let found = cancel_step(1);
     kani::cover!(found, "target in flight");
@@ -97,6 +99,8 @@ fn c18_cancel_in_flight_operation() {
 #[kani::unwind(8)]
 #[kani::stub(tokio::sync::Notify::notify_waiters, stub_notify_waiters)]
 #[kani::stub(std::collections::VecDeque::remove, crate::verif_common::vecdeque_remove_stub)]
+#[kani::stub(std::collections::VecDeque::swap_remove_back, crate::verif_common::vecdeque_swap_remove_back_stub)]
+#[kani::stub(std::collections::VecDeque::swap_remove_front, crate::verif_common::vecdeque_swap_remove_front_stub)]
 fn c18_cancel_matured_operation() {
     let found = cancel_step(3);
     kani::cover!(found, "target had already matured");
@@ -106,6 +110,8 @@ fn c18_cancel_matured_operation() {
 #[kani::unwind(8)]
 #[kani::stub(tokio::sync::Notify::notify_waiters, stub_notify_waiters)]
 #[kani::stub(std::collections::VecDeque::remove, crate::verif_common::vecdeque_remove_stub)]
+#[kani::stub(std::collections::VecDeque::swap_remove_back, crate::verif_common::vecdeque_swap_remove_back_stub)]
+#[kani::stub(std::collections::VecDeque::swap_remove_front, crate::verif_common::vecdeque_swap_remove_front_stub)]
 fn c18_cancel_unknown_operation() {
     let found = cancel_step(4);
     kani::cover!(!found, "no such operation");
